@@ -38,6 +38,10 @@ type Banner struct {
 	Offset int    `json:"offset"` // character offset for "inside"
 	Kind   string `json:"kind"`   // "0:02:00" | "0:01:00"
 	Split  bool   `json:"split"`  // write banner and rest in two write() calls
+	// At, if set, replaces Chg: "conf" = the "configure terminal" that
+	// follows the scheduling of the reload, "end" = the "end" that leaves
+	// configuration mode while the reload is pending.
+	At string `json:"at,omitempty"`
 }
 
 type Pause struct {
@@ -86,25 +90,26 @@ type event struct {
 }
 
 type sim struct {
-	plan    Plan
-	in      *bufio.Reader
-	out     *os.File
-	tr      *os.File
-	buf     strings.Builder
-	nLine   int    // lines received so far
-	nChg    int    // change lines seen in config mode
-	curLine string // line being handled (for faults that depend on it)
-	asa     *asam.State
-	ios     *iosm.State
-	saved   string
-	mode    string // "", "enable", "config"
-	reload  bool
-	dirty   bool // config modified since last save
-	routes  []string
-	ipt     string
-	lastRC  int
-	pager   bool
-	width   bool
+	plan       Plan
+	in         *bufio.Reader
+	out        *os.File
+	tr         *os.File
+	buf        strings.Builder
+	nLine      int          // lines received so far
+	nChg       int          // change lines seen in config mode
+	curLine    string       // line being handled (for faults that depend on it)
+	bannerUsed map[int]bool // banners with At that were already shown
+	asa        *asam.State
+	ios        *iosm.State
+	saved      string
+	mode       string // "", "enable", "config"
+	reload     bool
+	dirty      bool // config modified since last save
+	routes     []string
+	ipt        string
+	lastRC     int
+	pager      bool
+	width      bool
 }
 
 func (s *sim) log(e event) {
@@ -458,10 +463,28 @@ func (s *sim) handleCisco(n int, line, kind string) bool {
 	// ---- echo, possibly garbled by a reload banner
 	echoed := false
 	faultOut, faultDone := "", false
-	if ios && isChange {
-		for _, b := range s.plan.Banners {
-			if b.Chg != s.nChg {
+	framing := ""
+	if ios && s.reload && !hasDo {
+		switch {
+		case lookup == "configure terminal" && s.mode == "enable":
+			framing = "conf"
+		case lookup == "end" && s.mode == "config":
+			framing = "end"
+		}
+	}
+	if ios && (isChange || framing != "") {
+		for bi, b := range s.plan.Banners {
+			if b.At == "" && (!isChange || b.Chg != s.nChg) {
 				continue
+			}
+			if b.At != "" && (b.At != framing || s.bannerUsed[bi]) {
+				continue
+			}
+			if b.At != "" {
+				if s.bannerUsed == nil {
+					s.bannerUsed = map[int]bool{}
+				}
+				s.bannerUsed[bi] = true
 			}
 			ban := fmt.Sprintf(reloadBanner, "in "+b.Kind)
 			s.log(event{Ev: "banner", N: n, Text: b.Form + " " + b.Kind, Msg: fmt.Sprint(b.Offset)})
